@@ -24,6 +24,10 @@ UNITS = ['w_dispatcher.cpp', 'w_queue.cpp', 'w_callbacklist.cpp']
 FUNNEL = ('EventDispatcherBase::dispatch', 'EventDispatcherBase::directDispatch', 'CallbackListBase::operator()',
           'EventQueueBase::doDispatchQueuedEvent', 'EventQueueBase::dispatch', 'EventDispatcherBase::DoMixinBeforeDispatch::forEach',
           'ForEachMixins::forEach')
+# Witness policies (witness/common.h) whose getEvent is callable with the argument lists the witness units use:
+# in those instantiations every getEvent call of dispatch / enqueue must resolve to the policy, not to DefaultGetEvent.
+POLICIES_WITH_GETEVENT = ('wit::PoliciesGetEventRef', 'wit::PoliciesGetEventValue', 'wit::PoliciesGetEventExcl', 'wit::PoliciesGetEventExclValue')
+
 LIST_OPS = {'appendListener': 'append', 'prependListener': 'prepend', 'insertListener': 'insert'}
 
 
@@ -155,6 +159,15 @@ def check_funnel(ctx, tu):
         # returns &it->second exactly when found
         rets = f.return_nodes()
         ctx.ob('C04.F', f, 'lookup returns the found element or null', len(rets) == 2)
+    for f in tu.fns:
+        if f.skey in ('EventDispatcherBase::dispatch', 'EventQueueBase::enqueue') and any(pn + ',' in f.clsq or pn + '>' in f.clsq for pn in POLICIES_WITH_GETEVENT):
+            for n in f.calls():
+                cal = f.callee(n)
+                if cal and cal['name'] == 'getEvent':
+                    ctx.ob('C04.W', f, 'a getEvent policy that accepts the call\'s arguments is the one that computes the event', not cal.get('lib'),
+                           detail='%s resolves getEvent to %s although the policy %s provides a callable getEvent: the policy is silently bypassed'
+                                  % (f.q[:120], short(cal['key']), [pn for pn in POLICIES_WITH_GETEVENT if pn in f.clsq][0]),
+                           where=f.nloc(n), key_detail='policy getEvent used')
     for name, op in LIST_OPS.items():
         for f in tu.fns_named('EventDispatcherBase::' + name):
             calls = [n for n in f.calls() if (f.callee(n) or {}).get('name') in ('append', 'prepend', 'insert')]
